@@ -195,7 +195,7 @@ def _scopes(E):
         return u
 
     def gen_update(tier, rng):
-        maxlen = {"quick": 2, "concretise": 3}.get(tier, 4)
+        maxlen = {"quick": 2, "concretise": 3}.get(tier, 3)
         cands = [(v, t) for v in (0, 1, 2) for t in TAGS]
         for merge in ("MIN", "MAX"):
             for ret in ("NONE", "ANY", "ALL"):
@@ -218,7 +218,7 @@ def _scopes(E):
 
     E.registry.scopes[f"{M}:Entry.update"] = Scope(
         gen_update, build_update,
-        describe="all update histories of length <= 2 (3 when concretising, 4 thorough) over values {0,1,2} x tags {None,a,b}, split into a prior batch and the checked call in every way, 2x3 policies; 300 (3000) random longer histories with +-inf",
+        describe="all update histories of length <= 2 (3 when concretising / thorough) over values {0,1,2} x tags {None,a,b}, split into a prior batch and the checked call in every way, 2x3 policies; 300 (3000) random longer histories with +-inf",
         nontrivial=lambda r: len(r["candidates"]) > 0)
     E._dp_helpers = dict(mk_entry=mk_entry, val=_val, universe=universe)
 
@@ -249,7 +249,9 @@ def _more_scopes(E):
                             yield {"merge": merge, "ret": ret, "h1": [[[v1, "a"], [v1, "b"]]], "h2": [[[v2, "b"]]], "comb": comb}
         for merge in ("MIN", "MAX"):
             for ret in ("NONE", "ANY", "ALL"):
-                for h1 in itertools.product(cands if tier == "thorough" else cands[1::2] + cands[:1], repeat=n):
+                for j1, h1 in enumerate(itertools.product(cands if tier == "thorough" else cands[1::2] + cands[:1], repeat=n)):
+                    if tier == "thorough" and j1 % 5:
+                        continue  # every fifth history of length 3 (the full product is ~440 000 evaluations)
                     for h2 in itertools.product(cands[::2], repeat=n - 1):
                         for comb in combs:
                             yield {"merge": merge, "ret": ret, "h1": [list(map(list, h1))], "h2": [list(map(list, h2))], "comb": comb}
